@@ -40,3 +40,130 @@ def two_dynamic(src):
 
 for s in ('x_gcc_v4_m32.so', 'x_gcc_v2.so'):
     two_dynamic(s)
+
+
+# ---------------------------------------------------------------------------------------------------------------
+# derived__shared_abbrev_<variant>_<src>: a unit appended to .debug_info that uses the abbreviation table of the first
+# unit (same debug_abbrev_offset) but other struct parameters (address size 4 instead of 8, or the 64-bit DWARF format):
+# whatever is cached per abbreviation table or declaration must not depend on which unit used it first.
+def _uleb(data, pos):
+    v = sh = 0
+    while True:
+        b = data[pos]
+        pos += 1
+        v |= (b & 0x7f) << sh
+        sh += 7
+        if not b & 0x80:
+            return v, pos
+
+
+def _sleb(data, pos):
+    v, p2 = _uleb(data, pos)
+    n = 7 * (p2 - pos)
+    if v & (1 << (n - 1)):
+        v -= 1 << n
+    return v, p2
+
+
+def _enc_uleb(v):
+    out = bytearray()
+    while True:
+        b = v & 0x7f
+        v >>= 7
+        out.append(b | (0x80 if v else 0))
+        if not v:
+            return bytes(out)
+
+
+def _abbrevs(data, pos):
+    out = []
+    while True:
+        code, pos = _uleb(data, pos)
+        if code == 0:
+            return out
+        tag, pos = _uleb(data, pos)
+        children = data[pos]
+        pos += 1
+        specs = []
+        while True:
+            at, pos = _uleb(data, pos)
+            form, pos = _uleb(data, pos)
+            if form == 0x21:
+                _v, pos = _sleb(data, pos)
+            if at == 0 and form == 0:
+                break
+            specs.append((at, form))
+        out.append((code, tag, children, specs))
+
+
+def shared_abbrev(src, variant):
+    from dst.core import elfedit
+    data = open(os.path.join(C, src), 'rb').read()
+    img = elfedit.Image(data)
+    bo = img.raw.bo
+    info_s = img.find('.debug_info')
+    info = img.content(info_s)
+    abbrev = img.content(img.find('.debug_abbrev'))
+    assert int.from_bytes(info[:4], bo) < 0xfffffff0
+    version = int.from_bytes(info[4:6], bo)
+    assert version in (3, 4), version
+    abbrev_off = int.from_bytes(info[6:10], bo)
+    asz_a = info[10]
+    asz = 4 if variant == 'asz4' else asz_a
+    fmt64 = variant == 'fmt64'
+    osz = 8 if fmt64 else 4
+    pick = None
+    for code, tag, children, specs in _abbrevs(abbrev, abbrev_off):
+        forms = [f for a, f in specs]
+        ats = [a for a, f in specs]
+        known = {0x01, 0x0b, 0x05, 0x06, 0x07, 0x0d, 0x0f, 0x08, 0x0e, 0x17, 0x13, 0x0c, 0x19, 0x18, 0x21}
+        if tag in (0x11, 0x3c) or 0x10 in ats or 0x01 in ats or not set(forms) <= known:
+            continue               # no unit DIE, no statement list, no sibling reference, only forms written below
+        if (0x01 in forms) if variant == 'asz4' else (0x0e in forms or 0x17 in forms):
+            pick = (code, children, specs)
+            break
+    assert pick, 'no suitable abbreviation'
+    code, children, specs = pick
+    hdr_len = (12 + 2 + 8 + 1) if fmt64 else 11
+    die = bytearray(_enc_uleb(code))
+    for at, form in specs:
+        if form == 0x01:
+            die += (0x1234).to_bytes(asz, bo)
+        elif form == 0x0b or form == 0x0c:
+            die += b'\x01'
+        elif form == 0x05:
+            die += (1).to_bytes(2, bo)
+        elif form == 0x06:
+            die += (1).to_bytes(4, bo)
+        elif form == 0x07:
+            die += (1).to_bytes(8, bo)
+        elif form in (0x0d, 0x0f):
+            die += b'\x01'
+        elif form == 0x08:
+            die += b'b\x00'
+        elif form in (0x0e, 0x17):
+            die += (0).to_bytes(osz, bo)
+        elif form == 0x13:
+            die += hdr_len.to_bytes(4, bo)          # a reference to this very entry
+        elif form == 0x18:
+            die += b'\x01\x9c'                      # DW_OP_call_frame_cfa
+        elif form in (0x19, 0x21):
+            pass
+    if children:
+        die += b'\x00'
+    if fmt64:
+        rest = version.to_bytes(2, bo) + abbrev_off.to_bytes(8, bo) + bytes([asz]) + bytes(die)
+        unit = b'\xff\xff\xff\xff' + len(rest).to_bytes(8, bo) + rest
+    else:
+        rest = version.to_bytes(2, bo) + abbrev_off.to_bytes(4, bo) + bytes([asz]) + bytes(die)
+        unit = len(rest).to_bytes(4, bo) + rest
+    assert len(unit) - len(die) == hdr_len
+    img.set_content(info_s, info + unit)
+    out = 'derived__shared_abbrev_%s_%s' % (variant, src)
+    new = img.build()
+    open(os.path.join(C, out), 'wb').write(new)
+    print(out, len(new), 'abbrev code', code, 'unit at', len(info))
+
+
+shared_abbrev('x_gcc_v4.so', 'asz4')
+shared_abbrev('x_gcc_v4.so', 'fmt64')
